@@ -111,6 +111,8 @@ Proof.
   intros s _ _ c. unfold pop_cleanup. cbn [with_src ts].
   destruct (cleanups (ts s)) as [|[i f] r]; [|destruct (cleaning (ts s))]; constructor; cbn; auto.
 Qed.
+Lemma replays_note_skip m : replays (note_skip m).
+Proof. intros s _ _ c; constructor; cbn; auto. Qed.
 Lemma replays_failOnError l : replays (failOnError l).
 Proof.
   intros s _ _ c. unfold failOnError. cbn [with_src ts].
@@ -622,8 +624,8 @@ Section InterpReplay.
     set (h := fun k (r : result val) =>
       match r with
       | Err XFuel => throw XFuel
-      | Err e => _ <- (match e with XInvalid m => if internal_msg m then mark_dirty else ret tt | _ => ret tt end) ;;
-                 cleanup_loop crun k (Some e)
+      | Err (XInvalid m) => _ <- (if internal_msg m then mark_dirty else ret tt) ;; _ <- note_skip m ;; cleanup_loop crun k last
+      | Err e => cleanup_loop crun k (Some e)
       | Ok _ => cleanup_loop crun k last
       end).
     change (rep_at (try_ (crun c) (h f)) (try_ (crun c) (h f')) (post (pop_cleanup s))).
@@ -640,8 +642,9 @@ Section InterpReplay.
       rewrite Epost.
       assert (Hh : replays2 (h f (res (crun c s2))) (h f' (res (crun c s2)))).
       { unfold h. destruct (res (crun c s2)) as [v|e]; [apply IH; lia|].
-        destruct e; try (apply replays_bind; [apply replays_ret|intros; apply IH; lia]).
-        - apply replays_bind; [destruct (internal_msg m); [apply replays_mark_dirty|apply replays_ret]|intros; apply IH; lia].
+        destruct e; try (apply IH; lia).
+        - apply replays_bind; [destruct (internal_msg m); [apply replays_mark_dirty|apply replays_ret]|intros _].
+          apply replays_bind; [apply replays_note_skip|intros; apply IH; lia].
         - apply replays_throw. }
       destruct (Hh (post (crun c s2)) Hg Hd2 cc) as [S1 S2 S3 S4 S5 S6 S7 S8].
       constructor; cbn [res post w rd rpd pv nd dirty wapp]; try assumption; try congruence; try lia.
@@ -663,8 +666,8 @@ Section InterpReplay.
     induction fuel as [|f IH]; intros last s e; cbn [cleanup_loop]; [cbn; congruence|].
     unfold bind at 1. unfold pop_cleanup at 1 2 3. destruct (cleanups (ts s)) as [|[id c] rest]; [|destruct (cleaning (ts s))]; cbn [res post]; [cbn; discriminate| |cbn; discriminate].
     unfold try_. cbn [res]. destruct (res (crun c _)) as [v|e0]; [apply IH|].
-    destruct e0; try (unfold bind at 1; cbn [ret res post]; apply IH).
-    - unfold bind at 1. destruct (internal_msg m); cbn [mark_dirty ret res post]; apply IH.
+    destruct e0; try apply IH.
+    - unfold bind at 1. destruct (internal_msg m); cbn [mark_dirty ret res post]; unfold bind at 1; cbn [note_skip res post]; apply IH.
     - cbn; congruence.
   Qed.
   Lemma cleanup_err s e : res (cleanup LF crun s) = Err e -> e = XFuel.
